@@ -212,7 +212,7 @@ def replay_file(path: str) -> int:
     return core.EXIT_OK
 
 
-TIERS = {"quick": {"runs": 18, "budget": 120.0}, "thorough": {"runs": 600, "budget": 1800.0}}
+TIERS = {"quick": {"runs": 48, "budget": 120.0}, "thorough": {"runs": 600, "budget": 1800.0}}
 
 
 def main(argv: List[str]) -> int:
